@@ -114,14 +114,15 @@ macro_rules! msg_chunk {
 msg_chunk!(c09_q_msg_sign_sha1_n16, SecurityPolicy::Basic128Rsa15, MessageSecurityMode::Sign, 16, 16, 2);
 msg_chunk!(c09_t_msg_sign_sha1_n30, SecurityPolicy::Basic128Rsa15, MessageSecurityMode::Sign, 30, 30, 2);
 msg_chunk!(c09_t_msg_sign_sha256_n24, SecurityPolicy::Basic256Sha256, MessageSecurityMode::Sign, 24, 24, 2);
-msg_chunk!(c09_t_msg_sign_sha256_n60, SecurityPolicy::Basic256Sha256, MessageSecurityMode::Sign, 60, 60, 2);
+// (c09_x_ = not registered: 60- and 48-byte SHA-256 instances ran out of memory at 30 GB)
+msg_chunk!(c09_x_msg_sign_sha256_n60, SecurityPolicy::Basic256Sha256, MessageSecurityMode::Sign, 60, 60, 2);
 // declared size smaller than the buffer (trailing bytes) and larger than it
 msg_chunk!(c09_q_msg_sign_sha1_size_below_buffer, SecurityPolicy::Basic128Rsa15, MessageSecurityMode::Sign, 48, 44, 2);
 msg_chunk!(c09_t_msg_sign_sha1_size_above_buffer, SecurityPolicy::Basic128Rsa15, MessageSecurityMode::Sign, 44, 48, 2);
 // SignAndEncrypt: ciphertext of a length that is / is not a multiple of the block size, and empty
 msg_chunk!(c09_t_msg_encrypt_sha1_n16_empty_ciphertext, SecurityPolicy::Basic128Rsa15, MessageSecurityMode::SignAndEncrypt, 16, 16, 2);
 msg_chunk!(c09_q_msg_encrypt_sha1_n37_ragged_ciphertext, SecurityPolicy::Basic128Rsa15, MessageSecurityMode::SignAndEncrypt, 37, 37, 2);
-msg_chunk!(c09_t_msg_encrypt_sha256_n48, SecurityPolicy::Basic256Sha256, MessageSecurityMode::SignAndEncrypt, 48, 48, 2);
+msg_chunk!(c09_x_msg_encrypt_sha256_n48, SecurityPolicy::Basic256Sha256, MessageSecurityMode::SignAndEncrypt, 48, 48, 2);
 // mode None: everything is passed through
 msg_chunk!(c09_q_msg_none_n20, SecurityPolicy::None, MessageSecurityMode::None, 20, 20, 2);
 
